@@ -5,21 +5,86 @@ import json
 
 PROPS = ["C%02d" % i for i in range(1, 21)]
 
+HIST_NOTE = ("Trusted: Coq kernel; translator (syn) -> Gen/*.v; ExtrOcamlBasic extraction + OCaml driver; python "
+             "harness (scenario generator, canonicaliser by first-seen numbering of object ids, direct oracles); "
+             "git itself (3-way merge of the region corpus, two-way read-tree, object/ref atomicity of one git "
+             "process). Modelled rather than verified: the commands of Model/Cmd.v over the cell corpus with index = "
+             "work tree; import/export/pick/squash/sync/fold/rebase/pull/edit are outside the model.")
+HIST_TECH = "Coq proof (invariants by induction over commands) + translator tie + extracted-model history-level differential testing + direct oracles"
+PROTO_NOTE = ("Trusted: Coq kernel; translator (event order of execute/checkout/critical regenerated into Gen/ExecOrder.v "
+              "and compared with Model/ExpectedOrder.v by a theorem); hook 2 program points (cfg stgit_verif); python "
+              "rigs (fail/kill/pause, SIGINT, git PATH shim); gix ref transaction order (updates in list order, then "
+              "deletions) read from gix-ref 0.51 and validated by the crash rig. Runtime behaviour below phase "
+              "granularity (inside one syscall / one git process) is not exhibited by the model (partial).")
+PROTO_TECH = "Coq proof over the publication-protocol model + source-order tie + exhaustive fault/crash/signal/schedule enumeration at program points against the model"
+
 CHECKS = {
-    "C14": dict(
-        category="proof",
+    "C01": dict(category="proof", design_ref="DESIGN.md section 4/C01", note=HIST_NOTE, technique=HIST_TECH,
+        text="Theorems: Inv (every recorded state well-formed: unique valid non-colliding names, lists = patch map, "
+             "patch commits exist with one parent) holds initially and is preserved by every modelled command for all "
+             "histories (C01_all_histories); opening a stack establishes the patch-ref mirror and every command keeps "
+             "it. Scope exclusion stated in the theorem: `stg reset <entry> <patches>`."),
+    "C03": dict(category="proof", design_ref="DESIGN.md section 4/C03", note=PROTO_NOTE, technique=PROTO_TECH,
+        text="Theorem C03_fault_atomic: outside three named known classes a failure at any program point yields exit 2 "
+             "with refs and checked-out tree unchanged; refs move only in the final reference transaction. Every "
+             "corpus command x every program point (and every git invocation via a PATH shim) is run against the "
+             "real stg and compared with the model's prediction; the known classes are genuine findings F11/F24/F25."),
+    "C04": dict(category="proof", design_ref="DESIGN.md section 4/C04", note=PROTO_NOTE, technique=PROTO_TECH,
+        text="Theorems: after a kill at any program point or after any prefix of the ordered single-ref operations the "
+             "state ref is the old, the external-modification or the new state; no ref holds a foreign value; the "
+             "branch moves only after the state ref. Real crashes (SIGKILL at every point, every ref-edit prefix) are "
+             "followed by fsck, stg series, stg repair, stg reset --hard and the C01/C02 oracles."),
+    "C05": dict(category="proof", design_ref="DESIGN.md section 4/C05", note=HIST_NOTE, technique=HIST_TECH,
+        text="Theorems over the abstract log: undo -n k = k-th state of the effective timeline, = k single undos; "
+             "redo -n k = k-th entry of the redo stack, refused after any other operation; find_undo_state over the "
+             "object store IS that walk; reset_to_state installs exactly the logged state."),
+    "C07": dict(category="proof", design_ref="DESIGN.md section 4/C07", note=HIST_NOTE, technique=HIST_TECH,
+        text="Theorems: list results of reorder/push/pop/delete are the documented ones; the four tree shortcuts, the "
+             "temp-index path (git apply) and the work-tree merge all return the cell-wise three-way merge; "
+             "non-overlapping changes merge cleanly and commute; already-present changes become empty; the temp-index "
+             "cache stays coherent (fix F7); pop+push reuses the same commits."),
+    "C09": dict(category="proof", design_ref="DESIGN.md section 4/C09", note=HIST_NOTE, technique=HIST_TECH,
+        text="Theorems: a conflict halt keeps every earlier push; halted transactions never exit 0; with conflicts "
+             "disallowed nothing is touched; guarded commands and undo without --hard refuse while the index is "
+             "unmerged; source ties: check_conflicts is called unguarded in push/pop/goto/float/sink/delete/new/"
+             "squash/spill and CONFLICT_ERROR = 3."),
+    "C11": dict(category="proof", design_ref="DESIGN.md section 4/C11", note=PROTO_NOTE, technique=PROTO_TECH,
+        text="Theorems: with a compare-and-swap on the state commit seen at LOAD time no interleaving loses an update "
+             "(all 20 schedules, symbolic values); the log stays linear under every schedule; with the re-read value "
+             "that execute() really uses a losing schedule exists (C11_cas_on_reread_loses_updates = known finding "
+             "F9). All 20 interleavings are realised on the real stg with pause points and compared with the model."),
+    "C12": dict(category="proof", design_ref="DESIGN.md section 4/C12", note=HIST_NOTE, technique=HIST_TECH,
+        text="Theorems: committing bottom-most patches creates no object and keeps the head; uncommit never moves "
+             "branch, index or work tree and creates no commit; the downward walk refuses merge/root commits and finds "
+             "exactly the commits committed before; source tie: uncommit runs with set_head(false), "
+             "use_index_and_worktree(false)."),
+    "C13": dict(category="proof", design_ref="DESIGN.md section 4/C13", note=HIST_NOTE, technique=HIST_TECH,
+        text="Theorems: repair_appliedness is a permutation; repair never touches index/work tree; on a consistent "
+             "stack the first-parent walk finds exactly the applied patches; walked names are patches, patchified "
+             "commits are single-parent non-patches; source tie: RequireInitialized, is_protected first, no work tree. "
+             "Fix F23 (branch moved back to the old base under a merge) is modelled; F6 is a known finding."),
+    "C14": dict(category="proof", design_ref="DESIGN.md section 4/C14",
         text="Coq theorems over the transcription of PatchName::{validate,from_str,make,uniquify,collides} and the "
              "patch_name parser: validity (git ref component), totality (no panic), length bound, uniqueness and "
              "termination of uniquify, agreement of the two validity definitions, soundness of the exhaustive "
-             "Unicode table check. Tied to the code by the translator (constants/char sets), an exhaustive "
-             "check of the Unicode facts dumped from the binary, function-level differential testing against "
-             "`stg verif-eval`, end-to-end `stg new`, and git check-ref-format as independent oracle.",
-        design_ref="DESIGN.md section 4/C14",
+             "Unicode table check.",
         note="Trusted: Coq kernel; translator; ExtrOcamlBasic extraction + OCaml driver; python harness; "
              "to_lowercase modelled per scalar value (final-sigma position abstracted); git's ref rules "
              "transcribed (validated against git check-ref-format each run).",
-        technique="Coq proof (induction, invariants) + translator tie + extracted-model differential testing",
-    ),
+        technique="Coq proof (induction, invariants) + exhaustive Unicode table check + extracted-model differential testing"),
+    "C15": dict(category="proof", design_ref="DESIGN.md section 4/C15",
+        text="Theorems over the transcription of the winnow locator/range parsers, display, disambiguation and "
+             "resolve_name / resolve_names(_contiguous): an existing name always wins; resolution never panics and "
+             "never names a foreign patch; display/parse round trip; range expansion has no duplicates, stays inside "
+             "the allowed list and is a contiguous interval (reversed only by resolve_names).",
+        note="Trusted: Coq kernel; hand transcription of winnow alt/opt/repeat semantics (validated function-level "
+             "against stg verif-eval); gix Prefix::from_hex = 4..40 hex digits.",
+        technique="Coq proof + extracted-model function-level differential testing + round-trip and end-to-end oracles"),
+    "C19": dict(category="proof", design_ref="DESIGN.md section 4/C19", note=PROTO_NOTE, technique=PROTO_TECH,
+        text="Theorems: one SIGINT before publication leaves the refs unchanged; inside the critical section the "
+             "publication completes (refs, index, work tree of the completed command) with status 130; a roll-back "
+             "is never reported; source tie: shape of signal::critical and of the handler. Fix F12 modelled. SIGINT is "
+             "delivered at every program point of every corpus command."),
 }
 
 NA_REASON = "check under construction in this build phase (see DESIGN.md section 8); no claim made yet"
